@@ -4,6 +4,7 @@
   first) / the interface of its definition in the netlist; non-vacuity `exNetHA_frag`.
 -/
 import Spydr.Verilog.RoundTripAsgD
+import Spydr.Verilog.RoundTripAsgU
 set_option maxHeartbeats 1600000
 namespace Spydr.Verilog.Elab
 open Spydr.Verilog
@@ -13,7 +14,8 @@ open Spydr.Verilog
 /-- the syntax the writer prints for a definition written after the top: a `celldefine` module for a primitive, a module
     for anything else -/
 def astAnyA (n : Text.WNet) (r : Text.WDef) : Option WAnyA :=
-  if r.lib == "hdi_primitives" then (astLeaf r).map WAnyA.leaf else (astOfA n r).map (fun m => WAnyA.work m.toA)
+  if r.lib == "hdi_primitives" then (astLeafU r).map (fun lf => WAnyA.leaf (inoutify lf))
+  else (astOfA n r).map (fun m => WAnyA.work m.toA)
 
 /-- the fragment, one module: a primitive, or a work module in `fragTop` whose assignment instances are in `asgsOK` -/
 def fragTopA (n : Text.WNet) (r : Text.WDef) : Bool := fragTop n r && asgsOK n r 0 (asgI n r)
@@ -48,7 +50,7 @@ theorem astAnyA_name (n : Text.WNet) (r : Text.WDef) (M : WAnyA) (h : astAnyA n 
   · simp only [Option.map_eq_some_iff] at h
     obtain ⟨lf, hlf, e⟩ := h
     rw [← e]
-    exact (astLeaf_iface r lf hlf).1
+    exact (astLeafU_iface r lf hlf).1
   · simp only [Option.map_eq_some_iff] at h
     obtain ⟨m, hm, e⟩ := h
     rw [← e]
@@ -132,13 +134,14 @@ theorem hier_tbl_workA (n : Text.WNet) (t : String) (defs : List Def) (nx : Nat)
         · exact p1 W e
 
 /-- a primitive declared late, on the table (pure) -/
-theorem hier_tbl_leafA (n : Text.WNet) (t : String) (defs : List Def) (nx : Nat) (r : Text.WDef) (lf : WLeaf)
+theorem hier_tbl_leafA (n : Text.WNet) (t : String) (defs : List Def) (nx : Nat) (r : Text.WDef) (lfU : WLeaf)
     (tbl' : List Def) (n' : Nat) (Ws Rl : List Text.WDef) (hfull : FullT defs) (hleaf : LeafInv n defs)
-    (hstub : ∀ D ∈ defs, StubOK D) (ha : astLeaf r = some lf)
-    (hstep : lateStepA defs nx t (.leaf lf) = some (tbl', n'))
+    (hstub : ∀ D ∈ defs, StubOK D) (ha : astLeafU r = some lfU)
+    (hstep : lateStepA defs nx t (.leaf (inoutify lfU)) = some (tbl', n'))
     (hdw : DoneWA n defs Ws) (hdl : DoneL defs Rl) (hnw : ∀ W ∈ Ws, W.name ≠ r.name) (hnl : ∀ x ∈ Rl, x.name ≠ r.name) :
     LeafInv n tbl' ∧ (∀ D ∈ tbl', StubOK D) ∧ DoneWA n tbl' Ws ∧ DoneL tbl' (r :: Rl) := by
-  obtain ⟨hMn, hifc⟩ := astLeaf_iface r lf ha
+  obtain ⟨hMn, hifc⟩ := astLeafU_iface r lfU ha
+  generalize inoutify lfU = lf at hstep hMn hifc
   unfold lateStepA at hstep
   simp only [WAnyA.name] at hstep
   cases hf : defs.find? (fun d => d.name == lf.name) with
@@ -507,7 +510,8 @@ theorem c04_ast_hierA (n : Text.WNet) (T : Text.WDef) (Rs : List Text.WDef) (h :
         exact ⟨m, Ms, _, rfl, rfl, a1, rfl, rfl, a2, a3, a4⟩
 /-- non-vacuity: the three-level netlist of `exNetH` with assignment instances — a two-bit and a one-bit one in `top`
     (listed AFTER the ordinary instances: the re-read definition has them first), a one-bit one in `sub` (its assignment
-    definition is already in the table when `sub` is read); `top` and `sub` have module parameters -/
+    definition is already in the table when `sub` is read); `top` and `sub` have module parameters; `BBX` is an inferred black
+    box whose port has no direction (written `/* undefined port direction */ inout`, re-read INOUT) -/
 def exNetHA : Text.WNet :=
   let b (c : String) (i : Int) : Option Bit := some ⟨c, i⟩
   { name := "exha", top := some "top",
@@ -518,6 +522,7 @@ def exNetHA : Text.WNet :=
                    ⟨"z", 0, 1, none, none⟩],
         insts := [⟨"u0", "sub", none, none, [[b "a" 0, b "a" 1], [b "w" 0]]⟩,
                   ⟨"u1", "LUT1", none, none, [[b "w" 0], [b "y" 0]]⟩,
+                  ⟨"u2", "BBX", none, none, [[b "z" 0]]⟩,
                   ⟨"SDN_VERILOG_ASSIGNMENT_2_0", "SDN_VERILOG_ASSIGNMENT_2", none, none, [[b "a" 0, b "a" 1], [b "v" 0, b "v" 1]]⟩,
                   ⟨"SDN_VERILOG_ASSIGNMENT_1_1", "SDN_VERILOG_ASSIGNMENT_1", none, none, [[b "w" 0], [b "z" 0]]⟩] },
       { name := "sub", lib := "work", params := some [("DEPTH", some "4'h3"), ("MODE", some "\"fast\"")],
@@ -529,6 +534,8 @@ def exNetHA : Text.WNet :=
       { name := "LUT1", lib := "hdi_primitives", params := none, attrs := none,
         ports := [⟨some "I0", "IN", 0, 1, [none], none⟩, ⟨some "O", "OUT", 0, 1, [none], none⟩],
         cables := [], insts := [] },
+      { name := "BBX", lib := "hdi_primitives", params := none, attrs := none,
+        ports := [⟨some "P", "UNDEFINED", 0, 1, [none], none⟩], cables := [], insts := [] },
       { name := "SDN_VERILOG_ASSIGNMENT_2", lib := "SDN_VERILOG_ASSIGNMENT", params := none, attrs := none,
         ports := [⟨some "i", "IN", 0, 2, [none, none], none⟩, ⟨some "o", "OUT", 0, 2, [none, none], none⟩],
         cables := [], insts := [] },
@@ -538,7 +545,7 @@ def exNetHA : Text.WNet :=
 
 def exTopHA : Text.WDef := exNetHA.defs.headD default
 
-theorem exNetHA_frag : fragHierA exNetHA exTopHA ((exNetHA.defs.drop 1).take 2) = true := by decide
+theorem exNetHA_frag : fragHierA exNetHA exTopHA ((exNetHA.defs.drop 1).take 3) = true := by decide
 
-theorem exNetHA_has_assigns : (asgI exNetHA exTopHA).length = 2 ∧ (ordI exNetHA exTopHA).length = 2 := by decide
+theorem exNetHA_has_assigns : (asgI exNetHA exTopHA).length = 2 ∧ (ordI exNetHA exTopHA).length = 3 := by decide
 end Spydr.Verilog.Elab
